@@ -15,8 +15,13 @@ cloudsync.sync.state.time:
   (iv) second tie: harness/c17_translator.py regenerates coq/theories/GenSched.v (gen_eligible,
        gen_sort_key) from the CURRENT source of SyncState.change; SchedGenEq.v proves them equal to the
        model; an AST outside the whitelist is a VIOLATION ... no-failing-input-found;
-  (v)  corpus first: boundary table, the witnesses of the two known findings, one of them replayed end to
-       end on the real engine (CloudSync over two MockProviders, virtual clock in state/manager/mock/event).
+  (v)  corpus first: boundary table; age_zero_same_tick.json, the regression case of the defect fixed in
+       /repo 5c0d808 (a revert is reported as a VIOLATION with that replay); the witnesses of the open known
+       finding C17-last-notification-either-side, one of them replayed end to end on the real engine
+       (CloudSync over two MockProviders, virtual clock in state/manager/mock/event).
+change() is compared and judged with the threshold the code computes since 5c0d808 + ed9e461 (now - age on the
+clock; raised to _last_changed_time when age <= 0); the table stream sets _last_changed_time directly (below,
+at and above the clock reading) and uses ages > 0, = 0 and < 0.
 All values are compared as exact rationals; no float is ever compared or printed into a case id."""
 import glob
 import json
@@ -155,8 +160,12 @@ def truthy(v):
 
 
 # ------------------------------------------------------------------ the laws, on real values
-def real_et(now, age):
-    return F(float(now) - float(age))      # what the code computes
+def real_et(now, age, last):
+    """what the code computes (/repo 5c0d808 + ed9e461): now - age, raised to _last_changed_time when age <= 0"""
+    et = float(now) - float(age)
+    if float(age) <= 0:
+        et = max(et, float(last))
+    return F(et)
 
 
 def key_of(pri, chl, chr_):
@@ -167,11 +176,11 @@ def eligible_py(et, pri, chl, chr_):
     return bool((chl and F(chl) <= et) or (chr_ and F(chr_) <= et) or F(pri) < 0)
 
 
-def laws_on_pick(rows, pick, now, age):
+def laws_on_pick(rows, pick, now, age, last):
     """rows: [(pri, chL, chR)] in iteration order of the real change set; pick: index into rows or None.
     -> list of violated law names (mirrors PropC17: picked_is_eligible, picked_is_min, stable_on_ties,
     not_before_aged, none_means_nothing_eligible, age_zero (partial form))."""
-    et = real_et(now, age)
+    et = real_et(now, age, last)
     bad = []
     el = [eligible_py(et, *r) for r in rows]
     keys = [key_of(*r) for r in rows]
@@ -192,10 +201,12 @@ def laws_on_pick(rows, pick, now, age):
         pri, chl, chr_ = rows[pick]
         if F(pri) >= 0 and not ((chl and F(chl) <= et) or (chr_ and F(chr_) <= et)):
             bad.append("not_before_aged")
-    if F(age) == 0 and rows:
-        if all((r[1] and F(r[1]) <= F(now)) or (r[2] and F(r[2]) <= F(now)) for r in rows):
-            if pick is None or not all(el):
-                bad.append("age_zero_all_eligible")
+    if F(age) <= 0 and rows:
+        # C17_age_zero_eligible / C17_age_zero_change_some: a truthy stamp <= last change stamp (or <= now - age)
+        en = max(F(last), F(float(now) - float(age)))
+        due = [bool((r[1] and F(r[1]) <= en) or (r[2] and F(r[2]) <= en)) for r in rows]
+        if any(d and not e for d, e in zip(due, el)) or (any(due) and pick is None):
+            bad.append("age_zero_eligible")
     return bad
 
 
@@ -206,7 +217,7 @@ PRI_POOL = [0, 0, 0, 0, 0, 1, 1, 2, 3, 5, -1, -1, -2, 0.1, -0.1, 0.5, 1.1, 2.5, 
 def gen_table(rng):
     n = rng.choice([1, 1, 2, 2, 3, 3, 4, 5, 6, 8, 10, 12])
     base = rng.choice([0.0, 1.0, 100.0, 1000.5, 1700000000.0, 4096.25])
-    age = rng.choice([0, 0, 0.002, 0.25, 1, 1, 5, 5, 0.01, 30, rng.randrange(0, 64) / 8.0])
+    age = rng.choice([0, 0, 0.002, 0.25, 1, 1, 5, 5, 0.01, 30, rng.randrange(0, 64) / 8.0, -1, -0.25])
     now = base + rng.choice([0, 1, 5, 5.25, 10, 0.002, rng.randrange(0, 200) / 16.0])
     et = now - age
 
@@ -242,7 +253,14 @@ def gen_table(rng):
         rows.append([val_js(pri), val_js(a), val_js(b)])
     members = [1 if rng.random() < 0.9 else 0 for _ in range(n)]
     hashes = [rng.randrange(0, 64) for _ in range(n)]
-    return dict(kind="table", now=q_js(now), age=q_js(age), rows=rows, members=members, hashes=hashes)
+    r = rng.random()
+    if r < 0.5:
+        last = min(now, base)                        # no stamp ahead of the clock
+    elif r < 0.75:
+        last = now + rng.choice([0.001, 0.002, 0.25, 1, 5, age, age + 0.001])      # stamps ahead of the clock
+    else:
+        last = et + rng.choice([0, 0.001, -0.001, 1])
+    return dict(kind="table", now=q_js(now), last=q_js(last), age=q_js(age), rows=rows, members=members, hashes=hashes)
 
 
 def build_table(case):
@@ -264,6 +282,7 @@ def build_table(case):
         e[1]._changed = js_val(b)
         if m:
             st._changeset_storage.add(e)
+    st._last_changed_time = float(js_q(case.get("last", [1, 1])))
     return st, ents
 
 
@@ -290,7 +309,7 @@ def run_table_impl(case):
 
 def table_request(case, order):
     rows = case["rows"]
-    return [0, q_sx(js_q(case["now"])), q_sx(js_q(case["age"])),
+    return [0, [q_sx(js_q(case["now"])), q_sx(js_q(case.get("last", [1, 1])))], q_sx(js_q(case["age"])),
             [[q_sx(js_q(rows[i][0])), stamp_sx(None if rows[i][1] in (None, False) else js_q(rows[i][1])),
               stamp_sx(None if rows[i][2] in (None, False) else js_q(rows[i][2]))] for i in order]]
 
@@ -574,7 +593,7 @@ def gen_sequence(rng):
                 continue
             op = ["clearoid", i, rng.choice(sides)]
         else:
-            age = rng.choice([0, 0, 0.25, 1, 1, 2, 5, 0.0009765625, grid(rng, 0, 8)])
+            age = rng.choice([0, 0, 0.25, 1, 1, 2, 5, 0.0009765625, grid(rng, 0, 8), -0.5])
             op = ["change", q_js(tick()), q_js(age)]
         ops.append(op)
         stop = exec_one(real, op, trace)
@@ -591,6 +610,7 @@ def exec_one(real, op, trace):
     pre_rows = None
     if op[0] == "change":
         pre_rows = [(real.ents[i]._priority, real.ents[i][0]._changed, real.ents[i][1]._changed) for i in pre_order]
+    pre_last = F(real.st._last_changed_time)
     pre_ent = None
     if op[0] == "punt":
         e = real.ents[op[1]]
@@ -602,7 +622,7 @@ def exec_one(real, op, trace):
         pick, status = None, 1
     mops = model_ops(op, real, pre_order, pre_rel)
     res = dict(status=status, pick=pick, snap=real.snapshot() if status == 0 else None,
-               pre_order=pre_order, pre_rows=pre_rows, pre_ent=pre_ent)
+               pre_order=pre_order, pre_rows=pre_rows, pre_ent=pre_ent, pre_last=pre_last)
     trace.append((op, mops, res))
     return status != 0
 
@@ -629,10 +649,8 @@ def compare_sequence(trace, mout):
     for n, (op, mops, res) in enumerate(trace):
         outs = mout[pos:pos + len(mops)]
         pos += len(mops)
-        if res["status"] == 1:
-            if not outs or outs[-1] != [1]:
-                return n, "impl RecursionError, model %r" % (outs[-1:] or "nothing")
-            return None
+        if res["status"] == 1:                      # no state of the model raises since /repo ccb41ee
+            return n, "impl RecursionError, model %r" % (outs[-1:] or "nothing")
         if len(outs) < len(mops) or outs[-1][0] != 0:
             return n, "model status %r, impl ok" % (outs[-1] if outs else None)
         last = outs[-1]
@@ -688,10 +706,10 @@ def laws_on_trace(case, trace):
             rows = res["pre_rows"]
             order = res["pre_order"]
             pick = None if res["pick"] is None else order.index(res["pick"])
-            for law in laws_on_pick(rows, pick, js_q(op[1]), js_q(op[2])):
+            for law in laws_on_pick(rows, pick, js_q(op[1]), js_q(op[2]), res["pre_last"]):
                 bad.append((law, n))
             if pick is not None and F(rows[pick][0]) >= 0:
-                et = real_et(js_q(op[1]), js_q(op[2]))
+                et = real_et(js_q(op[1]), js_q(op[2]), res["pre_last"])
                 ok = False
                 for s in (0, 1):
                     v = rows[pick][1 + s]
@@ -848,7 +866,7 @@ def run_case(ctx, model, case, dist, stats, mismatches, label):
             mismatches.append((label, case, "pick: model %r / %r impl %r" % (mp, mp2, pick)))
         if not pure:
             mismatches.append((label, case, "change() modified the scheduling fields"))
-        for law in laws_on_pick(rows, pick, js_q(case["now"]), js_q(case["age"])) + case_laws(case, rows, pick):
+        for law in laws_on_pick(rows, pick, js_q(case["now"]), js_q(case["age"]), js_q(case.get("last", [1, 1]))) + case_laws(case, rows, pick):
             ctx.violation("law %s fails on the real SyncState.change" % law, dict(case, law=law))
         return
     trace = replay_sequence(case)
@@ -866,9 +884,11 @@ def case_laws(case, rows, pick):
     bad = []
     for law in case.get("expect_full", []):
         if law == "age_zero_every_pending_change_eligible":
-            et = real_et(js_q(case["now"]), js_q(case["age"]))
-            if F(js_q(case["age"])) == 0 and any(
-                    (truthy(r[1]) or truthy(r[2])) and not eligible_py(et, *r) for r in rows):
+            lst = js_q(case.get("last", [1, 1]))
+            et = real_et(js_q(case["now"]), js_q(case["age"]), lst)
+            en = max(F(lst), F(js_q(case["now"])))
+            due = [r for r in rows if (truthy(r[1]) and F(r[1]) <= en) or (truthy(r[2]) and F(r[2]) <= en)]
+            if F(js_q(case["age"])) == 0 and due and (pick is None or any(not eligible_py(et, *r) for r in due)):
                 bad.append(law)
     return bad
 
@@ -879,13 +899,18 @@ def case_laws_seq(case, trace):
         if law == "age_zero_every_pending_change_eligible":
             for n, (op, mops, res) in enumerate(trace):
                 if op[0] == "change" and res["status"] == 0 and js_q(op[2]) == 0:
-                    et = real_et(js_q(op[1]), 0)
-                    if any((truthy(r[1]) or truthy(r[2])) and not eligible_py(et, *r) for r in res["pre_rows"]):
+                    # every pending change whose stamp is not ahead of max(clock, last change stamp) -- i.e. every
+                    # stamp written by mark_changed and not punted since -- is eligible, and change(0) picks something
+                    et = real_et(js_q(op[1]), 0, res["pre_last"])
+                    en = max(F(res["pre_last"]), F(js_q(op[1])))
+                    due = [r for r in res["pre_rows"]
+                           if (truthy(r[1]) and F(r[1]) <= en) or (truthy(r[2]) and F(r[2]) <= en)]
+                    if due and (res["pick"] is None or any(not eligible_py(et, *r) for r in due)):
                         bad.append((law, n))
         if law == "not_before_last_notification":
             for n, (op, mops, res) in enumerate(trace):
                 if op[0] == "change" and res["status"] == 0 and res["pick"] is not None:
-                    et = real_et(js_q(op[1]), js_q(op[2]))
+                    et = real_et(js_q(op[1]), js_q(op[2]), res["pre_last"])
                     r = res["pre_rows"][res["pre_order"].index(res["pick"])]
                     if F(r[0]) >= 0 and any(truthy(v) and F(v) > et for v in r[1:]):
                         bad.append((law, n))
@@ -975,8 +1000,8 @@ def run(ctx):
                     mismatches.append(("tables", case, "pick: model %r / %r impl %r" % (mp, mp2, pick)))
                 if not pure:
                     mismatches.append(("tables", case, "change() modified the scheduling fields"))
-                now, age = js_q(case["now"]), js_q(case["age"])
-                et = real_et(now, age)
+                now, age, lst = js_q(case["now"]), js_q(case["age"]), js_q(case["last"])
+                et = real_et(now, age, lst)
                 el = [eligible_py(et, *r) for r in rows]
                 stats["eligible_fraction_num"] += sum(el)
                 stats["eligible_fraction_den"] += len(el)
@@ -991,8 +1016,10 @@ def run(ctx):
                     kp = key_of(*rows[pick])
                     if sum(1 for j, r in enumerate(rows) if el[j] and key_of(*r) == kp) > 1:
                         stats["ties_decided_by_order"] += 1
-                dist.add(("t", case["now"], case["age"], case["rows"], order), nontrivial=len(rows) >= 2 and any(el))
-                for law in laws_on_pick(rows, pick, now, age):
+                dist.add(("t", case["now"], case["last"], case["age"], case["rows"], order), nontrivial=len(rows) >= 2 and any(el))
+                if lst > now:
+                    stats["last_stamp_ahead_of_clock"] = stats.get("last_stamp_ahead_of_clock", 0) + 1
+                for law in laws_on_pick(rows, pick, now, age, lst):
                     ctx.violation("law %s fails on the real SyncState.change" % law, dict(case, law=law))
                 if len(samples) < 3 and pick is not None and len(rows) >= 3:
                     samples.append(dict(kind="table", now=str(now), age=str(age),
@@ -1017,6 +1044,8 @@ def run(ctx):
                     if res["status"] == 1:
                         stats["recursion_errors"] += 1
                     if op[0] == "change" and res["status"] == 0:
+                        if res["pre_last"] > js_q(op[1]):
+                            stats["last_stamp_ahead_of_clock"] = stats.get("last_stamp_ahead_of_clock", 0) + 1
                         if res["pick"] is None:
                             stats["picks_none"] += 1
                         else:
